@@ -314,8 +314,10 @@ Definition step_map {S M M'} (g : M -> M') (st : step N S M err) : step N S M' e
    goes on, so it changes neither the parser state nor the rest of the buffer.  What the layer
    above saw of one frame: the message it was handed and whether it returned normally, or nothing
    (the frame could not be decrypted / decoded / has an unknown type).
-   (pb_ok of mrp_p1 is the decode step alone here; DataStreamChannel has no such barrier: a
-   raising listener is ds_handler_ok = false, the exception leaves data_received - EHandler.) *)
+   (pb_ok of mrp_p1 is the decode step alone here.)
+   DataStreamChannel._process_payload does the same around listener.handle_protobuf for every
+   protobuf message of a frame (dsc_p1 below); ds_handler_ok keeps the steps that have no barrier
+   (decode_payload, message.get on a non-dict plist, sending the reply). *)
 Inductive mrp_seen := MHanded (data : bytes) (returned : bool) | MNotHanded.
 Definition mrp_consume (consumer : bytes -> bool) (m : mrp_msg) : mrp_seen :=
   match m with MDelivered d => MHanded d (consumer d) | MSwallowed _ => MNotHanded end.
@@ -327,6 +329,19 @@ Definition comp_consume (consumer : N -> bytes -> bool) (m : comp_msg) : comp_se
   match m with CFrame t p => CHanded t p (consumer t p) | CSwallowed _ _ => CNotHanded end.
 Definition compc_p1 dec known_type (consumer : N -> bytes -> bool) (s : comp_state) (buf : bytes) :=
   step_map (comp_consume consumer) (comp_p1 dec known_type s buf).
+
+(* What the layer above saw of one data stream frame: the protobuf messages of its payload in
+   order, each with "the listener returned normally", and whether the channel answered the frame
+   (a `sync` frame gets a `rply` with its seqno - also when the listener raised). *)
+Record ds_seen := { dsn_frame : ds_msg; dsn_handed : list (bytes * bool); dsn_reply : bool }.
+Definition SYNC : bytes := [115; 121; 110; 99].
+Definition ds_consume (pbs_of : bytes -> list bytes) (consumer : bytes -> bool) (m : ds_msg) : ds_seen :=
+  {| dsn_frame := m;
+     dsn_handed := map (fun pb => (pb, consumer pb)) (pbs_of (ds_payload m));
+     dsn_reply := prefixb SYNC (ds_type m) |}.
+(* pbs_of = decode_payload, params.data, decode_protobufs (library steps) *)
+Definition dsc_p1 handler_ok (pbs_of : bytes -> list bytes) (consumer : bytes -> bool) (s : unit) (buf : bytes) :=
+  step_map (ds_consume pbs_of consumer) (ds_p1 handler_ok s buf).
 
 (* BasicHttpServer: what handler.handle_request(request) does, and what the server then writes *)
 Inductive hout := HResponse | HRaises | HNothing.   (* returns a response / raises / returns None *)
@@ -717,7 +732,9 @@ Definition httpd_agree (c : httpd_case) : bool :=
   end.
 
 (* -- HAP channel with a second layer: data stream / event channel / encrypted HTTP client *)
-Inductive layer2 := L2DataStream (bad_payloads : list bytes) | L2Event (bad_first : list bytes) | L2Http (bad_first : list bytes).
+Inductive layer2 := L2DataStream (bad_payloads : list bytes) (pbs : list (bytes * list bytes)) (consumer : list bytes)
+                              (handed : list (bytes * bool)) (replies : list N)
+  | L2Event (bad_first : list bytes) | L2Http (bad_first : list bytes).
 Inductive l2msg := L2D (m : ds_msg) | L2H (m : http_msg).
 Definition l2msg_beq (a b : l2msg) : bool :=
   match a, b with
@@ -732,10 +749,16 @@ Record lay_case := { lc_layer : layer2; lc_dec : dectab; lc_stream : bytes; lc_s
 Definition lay_result (c : lay_case) (chunks : list bytes) : option (list l2msg * option (N * bytes * bytes)) :=
   let pa := hap_p1 (dec_lookup (lc_dec c)) in
   match lc_layer c with
-  | L2DataStream bad =>
-      match lfeeds _ _ _ pa (ds_p1 (fun m => negb (memb bad (ds_payload m)))) true 0 [] tt [] chunks with
-      | LOut ms sa ba _ bb => Some (map L2D ms, Some (sa, ba, bb))
-      | LFailA ms _ | LFailB ms _ => Some (map L2D ms, None)
+  | L2DataStream bad pbs consumer handed replies =>
+      let pbs_of := fun pl => match find (fun e => bytes_beq (fst e) pl) pbs with Some e => snd e | None => [] end in
+      match lfeeds _ _ _ pa (dsc_p1 (fun m => negb (memb bad (ds_payload m))) pbs_of (fun pb => negb (memb consumer pb)))
+                   true 0 [] tt [] chunks with
+      | LOut ms sa ba _ bb =>
+          (* what the listener was handed (with its outcome) and the replies sent, in order *)
+          if list_beq (pair_beq bytes_beq Bool.eqb) (flat_map dsn_handed ms) handed
+             && list_beq N.eqb (flat_map (fun x => if dsn_reply x then [ds_seqno (dsn_frame x)] else []) ms) replies
+          then Some (map (fun x => L2D (dsn_frame x)) ms, Some (sa, ba, bb)) else None
+      | LFailA ms _ | LFailB ms _ => Some (map (fun x => L2D (dsn_frame x)) ms, None)
       | LOutOfFuel => None
       end
   | L2Event bad =>
